@@ -1,2 +1,69 @@
-Require Import Amoco.C08.Model.
-Theorem placeholder_c08 : True. Proof. exact I. Qed.
+(* C08 — Abstract memory behaves as a last-write-wins byte store.
+   Only statements here; proofs are in Amoco.C08.Proofs*.  Model: Amoco.C08.Model (mirrors
+   amoco/system/memory.py), tied to /repo by harness/c08.py on every run. *)
+From Coq Require Import ZArith List Bool Lia.
+Import ListNotations.
+Require Import Amoco.C08.Model Amoco.C08.ProofsData Amoco.C08.ProofsZone Amoco.C08.ProofsAdd
+               Amoco.C08.ProofsRead Amoco.C08.ProofsOps.
+Open Scope Z_scope.
+
+(* One insertion: the bytes covered by the new object are its bytes, every other byte is unchanged,
+   and the zone stays sorted / disjoint / non-empty (so `locate` keeps working). *)
+Theorem C08_addtomap_refines : forall lo z m, Inv_from lo z -> dne (dat m) ->
+  exists z', addtomap z m = Some z' /\ Inv_from (Z.min lo (vaddr m)) z' /\
+             forall x, abs z' x = if contains m x then mbyte m x else abs z x.
+Proof. exact addtomap_refines. Qed.
+Print Assumptions C08_addtomap_refines.
+
+(* A read of any range returns, byte for byte, the abstraction (None = never written). *)
+Theorem C08_read_refines : forall lo z a l, Inv_from lo z -> 0 < l ->
+  exists r, read z a l = Some r /\ flatten r = map (abs z) (zrange a (Z.to_nat l)).
+Proof. exact read_refines. Qed.
+Print Assumptions C08_read_refines.
+
+(* Any history of writes / copy / restruct / shift / merge, of any length: the zone denotes the
+   last-write-wins function computed by the specification `sstep`. *)
+Theorem C08_history_last_write_wins : forall ops, Forall op_ok ops ->
+  exists z', run [] ops = Some z' /\ Inv z' /\ forall x, abs z' x = fold_left sstep ops none x.
+Proof. intros ops H. exact (history_refines ops [] Inv_nil H). Qed.
+Print Assumptions C08_history_last_write_wins.
+
+Theorem C08_read_after_history : forall ops a l, Forall op_ok ops -> 0 < l ->
+  exists z' r, run [] ops = Some z' /\ read z' a l = Some r /\
+               flatten r = map (fold_left sstep ops none) (zrange a (Z.to_nat l)).
+Proof.
+  intros ops a l H Hl. destruct (history_refines ops [] Inv_nil H) as (z' & E & [lo I] & A).
+  destruct (read_refines lo z' a l I Hl) as (r & R1 & R2).
+  exists z', r. split; [exact E|]. split; [exact R1|]. rewrite R2. apply map_ext. exact A.
+Qed.
+Print Assumptions C08_read_after_history.
+
+(* copy / restruct / shift / merge do not change what any read returns *)
+Theorem C08_copy_restruct_preserve : forall lo z, Inv_from lo z ->
+  Inv_from lo (restruct z) /\ (forall x, abs (restruct z) x = abs z x) /\ (forall x, abs (zcopy z) x = abs z x).
+Proof. intros lo z H. destruct (restruct_preserves lo z H) as [A B]. split; [exact A|]. split; exact B. Qed.
+Print Assumptions C08_copy_restruct_preserve.
+
+Theorem C08_shift_preserves : forall lo z d, Inv_from lo z ->
+  Inv_from (lo + d) (zshift z d) /\ forall x, abs (zshift z d) (x + d) = abs z x.
+Proof. exact shift_preserves. Qed.
+Print Assumptions C08_shift_preserves.
+
+Theorem C08_merge_later_wins : forall z o, Inv z -> Inv o ->
+  exists z', zmerge z o = Some z' /\ Inv z' /\
+  forall x, abs z' x = match abs o x with Some b => Some b | None => abs z x end.
+Proof. exact zmerge_later_wins. Qed.
+Print Assumptions C08_merge_later_wins.
+
+(* Non-vacuity: a concrete overlapping history satisfies the hypotheses and exercises the
+   general (i <> j) branch of addtomap, a symbolic cut and a raw merge. *)
+Example C08_nonvacuous :
+  let ops := [OpWrite 10 (Raw [1;2;3;4]); OpWrite 20 (Sym 7 0 8); OpWrite 12 (Sym 9 0 10); OpRestruct; OpWrite 14 (Raw [5])] in
+  Forall op_ok ops /\
+  option_map (fun z => map (abs z) (zrange 9 21)) (run [] ops) =
+  Some [None; Some (BRaw 1); Some (BRaw 2); Some (BSym 9 0); Some (BSym 9 1); Some (BRaw 5); Some (BSym 9 3);
+        Some (BSym 9 4); Some (BSym 9 5); Some (BSym 9 6); Some (BSym 9 7); Some (BSym 9 8); Some (BSym 9 9);
+        Some (BSym 7 2); Some (BSym 7 3); Some (BSym 7 4); Some (BSym 7 5); Some (BSym 7 6); Some (BSym 7 7); None; None].
+Proof.
+  split; [repeat constructor; unfold dne; cbn; lia|]. vm_compute. reflexivity.
+Qed.
